@@ -226,3 +226,6 @@ func Words(s string) []string {
 	sort.Strings(out)
 	return out
 }
+
+// WordAt recognises a word at the start of s: token name and byte length (0 if none).
+func WordAt(s string) (string, int) { return wordAt(s) }
